@@ -1,1 +1,789 @@
-fn main(){}
+//! execmon — C15: the executor never loses a wake-up and never polls a finished task.
+//!
+//! Drives the real `yash_executor::Executor` with instrumented hand-written futures and checks
+//! every `step()` against a reference FIFO queue with duplicate suppression.
+//! The same binary is run natively (large spaces) and under Miri (small slice; checks the
+//! hand-written `RawWaker` vtable for use-after-free / leaks).
+//!
+//! usage: execmon --tier quick|thorough --seed N            full run, writes evidence/C15.json
+//!        execmon --miri-slice N                            small exhaustive slice, no evidence file
+
+#[path = "../../vcheck/src/util.rs"]
+#[allow(dead_code)]
+mod util;
+#[path = "../../vcheck/src/known.rs"]
+#[allow(dead_code)]
+mod known;
+#[path = "../../vcheck/src/report.rs"]
+#[allow(dead_code)]
+mod report;
+
+use std::cell::RefCell;
+use std::collections::VecDeque;
+use std::future::Future;
+use std::pin::Pin;
+use std::rc::Rc;
+use std::task::{Context, Poll, Waker};
+use util::{Ctx, J, Rng, Tier};
+use yash_executor::forwarder::{Receiver, TryReceiveError};
+use yash_executor::{Executor, Spawner};
+
+#[derive(Clone, Copy, Debug, PartialEq, Eq, Hash)]
+enum Act {
+    /// clone the waker, wake the clone by value, return Pending once
+    YieldVal,
+    /// wake_by_ref, return Pending once
+    YieldRef,
+    /// wake_by_ref twice (duplicate suppression), return Pending once
+    YieldTwice,
+    /// wait until channel k has been signalled
+    Wait(u8),
+    /// signal channel k: wake every waiter (by value)
+    Signal(u8),
+    /// spawn a child (which yields once, then completes) and await its Receiver
+    Spawn,
+    /// clone the waker and drop the clone
+    DropClone,
+    /// keep a clone of the waker in the world's stash (woken later from outside, possibly after
+    /// the task has completed)
+    Stash,
+}
+
+const NCHAN: usize = 3;
+
+#[derive(Default)]
+struct Chan {
+    signalled: bool,
+    waiters: Vec<(usize, Waker)>,
+}
+
+#[derive(Default, Clone)]
+struct TaskInfo {
+    done: bool,
+    polls: u32,
+    /// Some(child) while awaiting that child's receiver
+    awaiting: Option<usize>,
+    /// current action when it last returned Pending
+    blocked_on: Option<Act>,
+    parent: Option<usize>,
+    received: u32,
+}
+
+struct World {
+    model: VecDeque<usize>,
+    polled: Vec<usize>,
+    in_poll: Option<usize>,
+    chans: [Chan; NCHAN],
+    stash: Vec<(usize, Waker)>,
+    tasks: Vec<TaskInfo>,
+    violations: Vec<String>,
+    spawner: Spawner<'static>,
+    wakes: u64,
+}
+
+impl World {
+    fn model_wake(&mut self, t: usize) {
+        self.wakes += 1;
+        if !self.model.contains(&t) {
+            self.model.push_back(t);
+        }
+    }
+    fn new_task(&mut self, parent: Option<usize>) -> usize {
+        self.tasks.push(TaskInfo {
+            parent,
+            ..Default::default()
+        });
+        let id = self.tasks.len() - 1;
+        // spawning enqueues the task
+        self.model.push_back(id);
+        id
+    }
+}
+
+type W = Rc<RefCell<World>>;
+
+struct TaskFut {
+    id: usize,
+    script: Vec<Act>,
+    pc: usize,
+    yielded: bool,
+    world: W,
+    recv: Option<(usize, Receiver<u64>)>,
+}
+
+impl Future for TaskFut {
+    type Output = u64;
+    fn poll(mut self: Pin<&mut Self>, cx: &mut Context<'_>) -> Poll<u64> {
+        let this = &mut *self;
+        let id = this.id;
+        {
+            let mut w = this.world.borrow_mut();
+            w.polled.push(id);
+            if w.tasks[id].done {
+                w.violations.push(format!("task {id} polled after it completed"));
+                return Poll::Ready(0);
+            }
+            if let Some(other) = w.in_poll {
+                w.violations
+                    .push(format!("task {id} polled while task {other} is being polled (re-entrant)"));
+            }
+            w.in_poll = Some(id);
+            w.tasks[id].polls += 1;
+            w.tasks[id].blocked_on = None;
+        }
+        let r = this.run(cx);
+        let mut w = this.world.borrow_mut();
+        w.in_poll = None;
+        if let Poll::Ready(_) = r {
+            w.tasks[id].done = true;
+            // the forwarding wrapper now sends the value, waking the parent if it is waiting
+            if let Some(p) = w.tasks[id].parent {
+                if w.tasks[p].awaiting == Some(id) {
+                    w.model_wake(p);
+                }
+            }
+        }
+        r
+    }
+}
+
+impl TaskFut {
+    fn run(&mut self, cx: &mut Context<'_>) -> Poll<u64> {
+        let id = self.id;
+        while self.pc < self.script.len() {
+            let act = self.script[self.pc];
+            match act {
+                Act::YieldVal | Act::YieldRef | Act::YieldTwice => {
+                    if !self.yielded {
+                        self.yielded = true;
+                        match act {
+                            Act::YieldVal => {
+                                cx.waker().clone().wake();
+                                self.world.borrow_mut().model_wake(id);
+                            }
+                            Act::YieldRef => {
+                                cx.waker().wake_by_ref();
+                                self.world.borrow_mut().model_wake(id);
+                            }
+                            _ => {
+                                cx.waker().wake_by_ref();
+                                cx.waker().wake_by_ref();
+                                let mut w = self.world.borrow_mut();
+                                w.model_wake(id);
+                                w.model_wake(id);
+                            }
+                        }
+                        self.world.borrow_mut().tasks[id].blocked_on = Some(act);
+                        return Poll::Pending;
+                    }
+                    self.yielded = false;
+                }
+                Act::Wait(k) => {
+                    let mut w = self.world.borrow_mut();
+                    if !w.chans[k as usize].signalled {
+                        w.chans[k as usize].waiters.push((id, cx.waker().clone()));
+                        w.tasks[id].blocked_on = Some(act);
+                        return Poll::Pending;
+                    }
+                }
+                Act::Signal(k) => {
+                    let waiters = {
+                        let mut w = self.world.borrow_mut();
+                        w.chans[k as usize].signalled = true;
+                        std::mem::take(&mut w.chans[k as usize].waiters)
+                    };
+                    for (t, waker) in waiters {
+                        waker.wake();
+                        self.world.borrow_mut().model_wake(t);
+                    }
+                }
+                Act::Spawn => {
+                    if self.recv.is_none() {
+                        let (child, spawner) = {
+                            let mut w = self.world.borrow_mut();
+                            let c = w.new_task(Some(id));
+                            (c, w.spawner.clone())
+                        };
+                        let fut = TaskFut {
+                            id: child,
+                            script: vec![Act::YieldRef],
+                            pc: 0,
+                            yielded: false,
+                            world: Rc::clone(&self.world),
+                            recv: None,
+                        };
+                        // SAFETY: single-threaded; wakers never leave this thread.
+                        let r = unsafe { spawner.spawn(fut) };
+                        match r {
+                            Ok(r) => self.recv = Some((child, r)),
+                            Err(_) => {
+                                self.world
+                                    .borrow_mut()
+                                    .violations
+                                    .push("spawn failed while the executor is alive".into());
+                                self.pc += 1;
+                                continue;
+                            }
+                        }
+                    }
+                    let (child, recv) = self.recv.as_mut().unwrap();
+                    let child = *child;
+                    match Pin::new(recv).poll(cx) {
+                        Poll::Pending => {
+                            let mut w = self.world.borrow_mut();
+                            w.tasks[id].awaiting = Some(child);
+                            w.tasks[id].blocked_on = Some(act);
+                            if w.tasks[child].done {
+                                w.violations.push(format!(
+                                    "task {id}: child {child} completed but its result is not delivered"
+                                ));
+                            }
+                            return Poll::Pending;
+                        }
+                        Poll::Ready(v) => {
+                            let mut w = self.world.borrow_mut();
+                            w.tasks[id].awaiting = None;
+                            w.tasks[id].received += 1;
+                            if v != 1000 + child as u64 {
+                                w.violations
+                                    .push(format!("task {id} received {v} from child {child}"));
+                            }
+                            if !w.tasks[child].done {
+                                w.violations.push(format!(
+                                    "task {id} received a result before child {child} completed"
+                                ));
+                            }
+                            drop(w);
+                            self.recv = None;
+                        }
+                    }
+                }
+                Act::DropClone => {
+                    let w = cx.waker().clone();
+                    drop(w);
+                }
+                Act::Stash => {
+                    let waker = cx.waker().clone();
+                    self.world.borrow_mut().stash.push((id, waker));
+                }
+            }
+            self.pc += 1;
+        }
+        Poll::Ready(1000 + id as u64)
+    }
+}
+
+struct Outcome {
+    violations: Vec<String>,
+    polls: u64,
+    wakes: u64,
+    steps: u64,
+    /// hash of the poll order
+    trace: u64,
+    stalls_with_waiters: u32,
+}
+
+/// Run one task system to completion under the monitor.
+fn run_system(scripts: &[Vec<Act>]) -> Outcome {
+    let exec: Executor<'static> = Executor::new();
+    let world: W = Rc::new(RefCell::new(World {
+        model: VecDeque::new(),
+        polled: Vec::new(),
+        in_poll: None,
+        chans: Default::default(),
+        stash: Vec::new(),
+        tasks: Vec::new(),
+        violations: Vec::new(),
+        spawner: exec.spawner(),
+        wakes: 0,
+    }));
+    let mut receivers: Vec<(usize, Receiver<u64>)> = Vec::new();
+    for s in scripts {
+        let id = world.borrow_mut().new_task(None);
+        let fut = TaskFut {
+            id,
+            script: s.clone(),
+            pc: 0,
+            yielded: false,
+            world: Rc::clone(&world),
+            recv: None,
+        };
+        // SAFETY: single-threaded.
+        let r = unsafe { exec.spawn(fut) };
+        receivers.push((id, r));
+    }
+    let mut steps = 0u64;
+    let mut trace: Vec<u8> = Vec::new();
+    let mut stalls_with_waiters = 0;
+    let max_steps = 10_000;
+
+    let run_until_stalled = |world: &W, steps: &mut u64, trace: &mut Vec<u8>| {
+        loop {
+            if *steps > max_steps {
+                world
+                    .borrow_mut()
+                    .violations
+                    .push("step bound exceeded (livelock)".into());
+                return;
+            }
+            {
+                let w = world.borrow();
+                let wc = exec.wake_count();
+                if wc != w.model.len() {
+                    drop(w);
+                    let m = world.borrow().model.len();
+                    world.borrow_mut().violations.push(format!(
+                        "wake_count() = {wc} but the reference queue holds {m} tasks"
+                    ));
+                }
+            }
+            let expected = world.borrow_mut().model.pop_front();
+            world.borrow_mut().polled.clear();
+            let was_done = expected.map(|t| world.borrow().tasks[t].done);
+            let r = exec.step();
+            *steps += 1;
+            let mut w = world.borrow_mut();
+            let polled = std::mem::take(&mut w.polled);
+            match (expected, r) {
+                (None, None) => return,
+                (None, Some(_)) => {
+                    w.violations.push(format!(
+                        "executor polled {polled:?} although the reference queue is empty"
+                    ));
+                    return;
+                }
+                (Some(t), None) => {
+                    w.violations.push(format!(
+                        "executor stalled although task {t} has been woken (lost wake-up)"
+                    ));
+                    return;
+                }
+                (Some(t), Some(complete)) => {
+                    trace.push(t as u8);
+                    if was_done == Some(true) {
+                        // a completed task woken through a stale waker: must not be polled
+                        if !polled.is_empty() {
+                            w.violations
+                                .push(format!("completed task {t} was polled again: {polled:?}"));
+                        }
+                        if !complete {
+                            w.violations
+                                .push(format!("step() reported completed task {t} as pending"));
+                        }
+                    } else {
+                        if polled != [t] {
+                            w.violations.push(format!(
+                                "expected task {t} (head of the FIFO queue) to be polled, executor polled {polled:?}"
+                            ));
+                        }
+                        let done_now = w.tasks[t].done;
+                        if polled.first() == Some(&t) && complete != done_now {
+                            w.violations.push(format!(
+                                "step() returned complete={complete} but task {t} done={done_now}"
+                            ));
+                        }
+                    }
+                }
+            }
+            if !w.violations.is_empty() {
+                return;
+            }
+        }
+    };
+
+    let check_stall = |world: &W| {
+        // when stalled, every unfinished task is genuinely waiting for something that has not happened
+        let mut w = world.borrow_mut();
+        let mut bad = Vec::new();
+        for (t, info) in w.tasks.iter().enumerate() {
+            if info.done {
+                continue;
+            }
+            let ok = match info.blocked_on {
+                Some(Act::Wait(k)) => !w.chans[k as usize].signalled,
+                Some(Act::Spawn) => info.awaiting.map(|c| !w.tasks[c].done).unwrap_or(false),
+                _ => false,
+            };
+            if !ok {
+                bad.push(format!(
+                    "stalled, but unfinished task {t} is not waiting for anything (blocked_on={:?})",
+                    info.blocked_on
+                ));
+            }
+        }
+        w.violations.extend(bad);
+    };
+
+    // phase 1: run to stall
+    run_until_stalled(&world, &mut steps, &mut trace);
+    if world.borrow().violations.is_empty() {
+        check_stall(&world);
+    }
+    // phase 2: wake stashed wakers from outside (spurious wakes, wakes of completed tasks)
+    if world.borrow().violations.is_empty() {
+        let stash = std::mem::take(&mut world.borrow_mut().stash);
+        for (i, (t, waker)) in stash.into_iter().enumerate() {
+            if i % 2 == 0 {
+                waker.wake();
+            } else {
+                waker.wake_by_ref();
+                drop(waker);
+            }
+            world.borrow_mut().model_wake(t);
+        }
+        run_until_stalled(&world, &mut steps, &mut trace);
+        if world.borrow().violations.is_empty() {
+            check_stall(&world);
+        }
+    }
+    // phase 3: signal every channel from outside, one at a time
+    for k in 0..NCHAN {
+        if !world.borrow().violations.is_empty() {
+            break;
+        }
+        let waiters = {
+            let mut w = world.borrow_mut();
+            w.chans[k].signalled = true;
+            std::mem::take(&mut w.chans[k].waiters)
+        };
+        if !waiters.is_empty() {
+            stalls_with_waiters += 1;
+        }
+        for (t, waker) in waiters {
+            waker.wake();
+            world.borrow_mut().model_wake(t);
+        }
+        run_until_stalled(&world, &mut steps, &mut trace);
+        if world.borrow().violations.is_empty() {
+            check_stall(&world);
+        }
+    }
+    // final: everything completed, every result delivered exactly once
+    {
+        let mut w = world.borrow_mut();
+        if w.violations.is_empty() {
+            let mut bad = Vec::new();
+            for (t, info) in w.tasks.iter().enumerate() {
+                if !info.done {
+                    bad.push(format!("task {t} never completed although every channel was signalled"));
+                }
+            }
+            for (id, r) in &receivers {
+                match r.try_receive() {
+                    Ok(v) if v == 1000 + *id as u64 => {}
+                    other => bad.push(format!("result of task {id}: {other:?}")),
+                }
+                if r.try_receive() != Err(TryReceiveError::AlreadyReceived) {
+                    bad.push(format!("result of task {id} delivered twice"));
+                }
+            }
+            w.violations.extend(bad);
+        }
+    }
+    let (violations, polls, wakes) = {
+        let mut w = world.borrow_mut();
+        // break reference cycles (world -> wakers -> tasks -> futures -> world)
+        for c in w.chans.iter_mut() {
+            c.waiters.clear();
+        }
+        w.stash.clear();
+        w.spawner = Spawner::dead();
+        (
+            std::mem::take(&mut w.violations),
+            w.tasks.iter().map(|t| t.polls as u64).sum(),
+            w.wakes,
+        )
+    };
+    drop(receivers);
+    drop(exec);
+    Outcome {
+        violations,
+        polls,
+        wakes,
+        steps,
+        trace: util::fnv(&trace),
+        stalls_with_waiters,
+    }
+}
+
+fn alphabet(nchan: u8, full: bool) -> Vec<Act> {
+    let mut a = vec![Act::YieldRef, Act::YieldVal, Act::YieldTwice];
+    for k in 0..nchan {
+        a.push(Act::Wait(k));
+        a.push(Act::Signal(k));
+    }
+    a.push(Act::Spawn);
+    if full {
+        a.push(Act::DropClone);
+        a.push(Act::Stash);
+    }
+    a
+}
+
+fn all_scripts(alpha: &[Act], maxlen: usize) -> Vec<Vec<Act>> {
+    let mut out: Vec<Vec<Act>> = vec![vec![]];
+    let mut frontier: Vec<Vec<Act>> = vec![vec![]];
+    for _ in 0..maxlen {
+        let mut next = Vec::new();
+        for s in &frontier {
+            for a in alpha {
+                let mut t = s.clone();
+                t.push(*a);
+                next.push(t);
+            }
+        }
+        out.extend(next.iter().cloned());
+        frontier = next;
+    }
+    out
+}
+
+fn sys_to_string(s: &[Vec<Act>]) -> String {
+    format!("{s:?}")
+}
+
+/// Enumerate all systems of `ntasks` scripts drawn from `scripts`; index decoding so that the
+/// space can be sharded.
+fn system_at(scripts: &[Vec<Act>], ntasks: usize, mut idx: usize) -> Vec<Vec<Act>> {
+    let n = scripts.len();
+    let mut v = Vec::with_capacity(ntasks);
+    for _ in 0..ntasks {
+        v.push(scripts[idx % n].clone());
+        idx /= n;
+    }
+    v
+}
+
+fn explore_space(ctx: &Ctx, name: &str, scripts: &[Vec<Act>], ntasks: usize) {
+    let total = scripts.len().pow(ntasks as u32);
+    let chunk = 4096;
+    let nchunks = total.div_ceil(chunk);
+    ctx.par_for(
+        nchunks,
+        |c| {
+            let mut polls = 0u64;
+            let mut wakes = 0u64;
+            let mut steps = 0u64;
+            let mut stalls = 0u64;
+            for idx in c * chunk..((c + 1) * chunk).min(total) {
+                let sys = system_at(scripts, ntasks, idx);
+                let o = run_system(&sys);
+                polls += o.polls;
+                wakes += o.wakes;
+                steps += o.steps;
+                stalls += o.stalls_with_waiters as u64;
+                ctx.eval();
+                if o.polls > sys.len() as u64 {
+                    // non-trivial: at least one task was polled more than once
+                    ctx.nontrivial(o.trace ^ util::fnv_str(&sys_to_string(&sys)));
+                }
+                for v in o.violations {
+                    ctx.violation(
+                        sig(&v),
+                        format!("task system (one script per task): {}\n{v}", sys_to_string(&sys)),
+                    );
+                }
+                if idx % 100_003 == 7 {
+                    ctx.sample(J::obj(vec![
+                        ("space", J::s(name)),
+                        ("system", J::s(sys_to_string(&sys))),
+                        ("polls", J::I(o.polls as i64)),
+                        ("wakes", J::I(o.wakes as i64)),
+                    ]));
+                }
+            }
+            ctx.count("polls_observed", polls as i64);
+            ctx.count("wakes_observed", wakes as i64);
+            ctx.count("executor_steps", steps as i64);
+            ctx.count("external_signals_that_woke_waiters", stalls as i64);
+        },
+        |c, msg| {
+            ctx.violation(
+                format!("panic:{}", sig(&msg)),
+                format!("panic while running chunk {c} of space {name}: {msg}"),
+            );
+        },
+    );
+    ctx.count(&format!("systems_{name}"), total as i64);
+}
+
+fn sig(v: &str) -> String {
+    // strip digits so that the signature names the kind of violation, not the task ids
+    v.chars().filter(|c| !c.is_ascii_digit()).take(80).collect()
+}
+
+fn random_systems(ctx: &Ctx, n: usize) {
+    let alpha = alphabet(NCHAN as u8, true);
+    let seed = ctx.seed;
+    ctx.par_for(
+        n,
+        |i| {
+            let mut rng = Rng::new(seed.wrapping_mul(1_000_003).wrapping_add(i as u64));
+            let nt = rng.range(3, 8);
+            let sys: Vec<Vec<Act>> = (0..nt)
+                .map(|_| {
+                    let len = rng.range(0, 8);
+                    (0..len).map(|_| *rng.pick(&alpha)).collect()
+                })
+                .collect();
+            let o = run_system(&sys);
+            ctx.eval();
+            ctx.count("polls_observed", o.polls as i64);
+            ctx.count("wakes_observed", o.wakes as i64);
+            ctx.count("executor_steps", o.steps as i64);
+            if o.polls > sys.len() as u64 {
+                ctx.nontrivial(o.trace ^ util::fnv_str(&sys_to_string(&sys)));
+            }
+            for v in o.violations {
+                ctx.violation(
+                    sig(&v),
+                    format!("random task system: {}\n{v}", sys_to_string(&sys)),
+                );
+            }
+            if i % 5000 == 1 {
+                ctx.sample(J::obj(vec![
+                    ("space", J::s("random")),
+                    ("system", J::s(sys_to_string(&sys))),
+                    ("polls", J::I(o.polls as i64)),
+                ]));
+            }
+        },
+        |i, msg| {
+            ctx.violation(format!("panic:{}", sig(&msg)), format!("random system #{i}: {msg}"));
+        },
+    );
+    ctx.count("systems_random", n as i64);
+}
+
+fn main() {
+    let args: Vec<String> = std::env::args().collect();
+    let mut tier = Tier::Quick;
+    let mut seed = 1u64;
+    let mut miri_slice: Option<usize> = None;
+    let mut nshards: usize = 16;
+    let mut miri_report: Option<String> = None;
+    let mut i = 1;
+    while i < args.len() {
+        match args[i].as_str() {
+            "--tier" => {
+                i += 1;
+                if args[i] == "thorough" {
+                    tier = Tier::Thorough;
+                }
+            }
+            "--seed" => {
+                i += 1;
+                seed = args[i].parse().unwrap_or(1);
+            }
+            "--miri-slice" => {
+                i += 1;
+                let mut it = args[i].split('/');
+                miri_slice = Some(it.next().and_then(|x| x.parse().ok()).unwrap_or(0));
+                nshards = it.next().and_then(|x| x.parse().ok()).unwrap_or(16);
+            }
+            "--miri-report" => {
+                i += 1;
+                miri_report = Some(args[i].clone());
+            }
+            _ => {}
+        }
+        i += 1;
+    }
+    if let Some(shard) = miri_slice {
+        // Under Miri: single-threaded, exhaustive over a small space: 2 tasks x <=2 actions over
+        // the full alphabet (1 channel), sharded, plus 3-task systems of single actions.
+        let alpha = alphabet(1, true);
+        let scripts = all_scripts(&alpha, 2);
+        let total = scripts.len() * scripts.len();
+        let mut n = 0u64;
+        let mut polls = 0u64;
+        for idx in (shard..total).step_by(nshards) {
+            let sys = system_at(&scripts, 2, idx);
+            let o = run_system(&sys);
+            n += 1;
+            polls += o.polls;
+            if let Some(v) = o.violations.first() {
+                println!("MIRI-SLICE-VIOLATION system={} {v}", sys_to_string(&sys));
+                std::process::exit(1);
+            }
+        }
+        let singles = all_scripts(&alpha, 1);
+        let total3 = singles.len().pow(3);
+        for idx in (shard..total3).step_by(nshards) {
+            let sys = system_at(&singles, 3, idx);
+            let o = run_system(&sys);
+            n += 1;
+            polls += o.polls;
+            if let Some(v) = o.violations.first() {
+                println!("MIRI-SLICE-VIOLATION system={} {v}", sys_to_string(&sys));
+                std::process::exit(1);
+            }
+        }
+        println!("MIRI-SLICE-OK shard={shard} systems={n} polls={polls}");
+        return;
+    }
+
+    util::install_panic_hook();
+    let mut ctx = Ctx::new("C15", tier, seed);
+    ctx.rule = "task systems: one script per task over {YieldVal, YieldRef, YieldTwice, Wait(k), Signal(k), Spawn(child+await Receiver), DropClone, Stash(waker woken later from outside, also after completion)}; exhaustive ordered tuples of scripts for the listed spaces + random larger systems (3-8 tasks, <=8 actions, 3 channels); every Executor::step() is compared with a reference FIFO queue with duplicate suppression (which task is polled, wake_count(), completion flag), instrumented futures flag poll-after-ready and re-entrant polls, stalls are checked for genuinely waiting tasks, results must be delivered exactly once; evaluations = task systems run; distinct_nontrivial = distinct (system, poll order) pairs in which some task was polled more than once".into();
+    let quick = ctx.quick();
+    // exhaustive spaces
+    let a1 = alphabet(1, true); // 8 actions
+    let a2 = alphabet(2, false); // 8 actions, two channels
+    explore_space(&ctx, "2tasks_le3_fullalpha_1chan", &all_scripts(&a1, 3), 2); // 585^2
+    explore_space(&ctx, "3tasks_le2_2chan", &all_scripts(&a2, 2), 3); // 73^3
+    if !quick {
+        explore_space(&ctx, "3tasks_le2_fullalpha_1chan", &all_scripts(&a1, 2), 3);
+        explore_space(&ctx, "2tasks_le4_2chan", &all_scripts(&a2, 4), 2); // 4681^2 = 21.9M
+        let small = vec![Act::YieldRef, Act::YieldTwice, Act::Wait(0), Act::Signal(0), Act::Spawn, Act::Stash];
+        explore_space(&ctx, "4tasks_le2_small", &all_scripts(&small, 2), 4); // 43^4 = 3.4M
+        explore_space(&ctx, "3tasks_le3_small", &all_scripts(&small, 3), 3); // 259^3 = 17M
+    }
+    *ctx.exhaustive.lock().unwrap() = Some(true);
+    random_systems(&ctx, if quick { 100_000 } else { 2_000_000 });
+
+    // Miri results gathered by ./check (the interpreter is run as a separate process)
+    if let Some(path) = miri_report {
+        match std::fs::read_to_string(&path) {
+            Ok(text) => {
+                let ok = text.lines().filter(|l| l.starts_with("MIRI-SLICE-OK")).count();
+                let mut systems = 0i64;
+                for l in text.lines().filter(|l| l.starts_with("MIRI-SLICE-OK")) {
+                    if let Some(p) = l.split("systems=").nth(1) {
+                        systems += p.split_whitespace().next().unwrap_or("0").parse::<i64>().unwrap_or(0);
+                    }
+                }
+                ctx.count("miri_shards_clean", ok as i64);
+                ctx.count("miri_systems_interpreted", systems);
+                let bad: Vec<&str> = text
+                    .lines()
+                    .filter(|l| {
+                        l.contains("Undefined Behavior")
+                            || l.contains("MIRI-SLICE-VIOLATION")
+                            || l.contains("memory leaked")
+                            || l.starts_with("error")
+                    })
+                    .collect();
+                if !bad.is_empty() {
+                    ctx.violation(
+                        format!("miri:{}", sig(bad[0])),
+                        format!("Miri reported a problem while interpreting the executor:\n{text}"),
+                    );
+                } else if ok == 0 {
+                    ctx.inconclusive.fetch_add(1, std::sync::atomic::Ordering::Relaxed);
+                    println!("INCONCLUSIVE: Miri slice produced no result (see {path})");
+                    ctx.set_extra("miri", J::s("inconclusive: no shard finished"));
+                } else {
+                    ctx.set_extra("miri", J::s(format!("{ok} shard(s) interpreted without UB, leak or monitor violation")));
+                }
+            }
+            Err(_) => {
+                ctx.set_extra("miri", J::s("not run"));
+            }
+        }
+    }
+    ctx.assume("single thread; wakers never leave the thread (the crate's documented contract)");
+    ctx.assume("Miri covers only the small slice listed under miri_systems_interpreted");
+    let rc = report::finish(&ctx);
+    std::process::exit(rc);
+}
